@@ -181,6 +181,16 @@ def main(check_name, tier, replay=None):
             base = {"map": {}}
         base = dict(base)
         base["map"] = {**base["map"], **base_b["map"]}
+    base_c = findings.load_baseline(mod.BASELINE + ".C", canon) if getattr(mod, "BASELINE", None) else None
+    if base_c is not None and not baseline_mode:
+        from vf import universe_c
+
+        if base_c["universe_hash"] != universe_c.content_hash():
+            inconclusive.append(f"baseline {mod.BASELINE}.C was built for universe {base_c['universe_hash']}, current is {universe_c.content_hash()}")
+        if base is None:
+            base = {"map": {}}
+        base = dict(base)
+        base["map"] = {**base["map"], **base_c["map"]}
 
     # witnesses of listed findings are replayed first (same worker code path)
     witness_items = []
@@ -205,6 +215,10 @@ def main(check_name, tier, replay=None):
             from vf import universe_b
 
             bname, uh = mod.BASELINE + ".B", universe_b.content_hash()
+        if group == "C":
+            from vf import universe_c
+
+            bname, uh = mod.BASELINE + ".C", universe_c.content_hash()
         findings.save_baseline(bname, uh, repo_rev(), case_sig, meta={"evals": m["evals"], "counters": m["counters"]})
         # propose known-finding entries: one per atomic mechanism, shortest witness
         by_atom = {}
